@@ -796,12 +796,35 @@ def rule_view(env, shared):
             out.append(Ob("OWN.view", k, "viol", "-", "Iterator::next of the view %s not found" % nm))
         else:
             ctx = env.ctx(nb, vadt, None)
-            reads = [(bi, t) for bi, t, c in nb.calls() if c.key in ("std::ptr::mut_ptr::read", "std::ptr::const_ptr::read",
-                                                                     "std::ptr::read") and not nb.blocks[bi]["cleanup"]]
+            READS = ("std::ptr::mut_ptr::read", "std::ptr::const_ptr::read", "std::ptr::read")
+            reads = [(bi, t) for bi, t, c in nb.calls() if c.key in READS and not nb.blocks[bi]["cleanup"]]
+            nb_orig, extra_guard, taker = nb, [], None
+            if not reads:
+                # the read and the step may sit together in one private method that only `next` calls, under next's guard
+                # (`if self.len == 0 { return None } Some(unsafe { self.take_first() })`): that method is judged in next's place,
+                # with what next knows at the call
+                for bi_, t_, c_ in nb.calls():
+                    d_ = F.resolve_callee(c_, vadt, None) if (not c_.indirect and not nb.blocks[bi_]["cleanup"]) else None
+                    hb_ = F.bodies.get(d_) if d_ else None
+                    if hb_ is None or hb_.is_closure or F.impl_self_adt(hb_) != vadt or (hb_.info or {}).get("exported") \
+                            or (hb_.info or {}).get("container") != "inherent":
+                        continue
+                    if len([1 for bj, tj, cj in hb_.calls() if cj.key in READS and not hb_.blocks[bj]["cleanup"]]) != 1:
+                        continue
+                    if any(cb_.def_ != nb.def_ for (cb_, _x) in all_callers(env, hb_.def_)):
+                        continue
+                    if len([1 for bj, tj, cj in nb.calls() if not cj.indirect and F.resolve_callee(cj, vadt, None) == d_]) != 1:
+                        continue
+                    extra_guard = [f for f in block_facts(ev, ctx, bi_) if f[0] == "ne" and len(f) == 3]
+                    taker = hb_
+                if taker is not None:
+                    nb = taker
+                    ctx = env.ctx(nb, vadt, None)
+                    reads = [(bi, t) for bi, t, c in nb.calls() if c.key in READS and not nb.blocks[bi]["cleanup"]]
             good = len(reads) == 1
             why = "" if good else "%d raw reads" % len(reads)
             a_ = F.adts[vadt]
-            steppers = _view_steppers(env, vadt, P, L, nb, F.bodies.get(a_.get("drop_fn")))
+            steppers = _view_steppers(env, vadt, P, L, nb_orig, F.bodies.get(a_.get("drop_fn"))) if taker is None else {}
             scalls = [(bi, t, c) for bi, t, c in nb.calls() if not nb.blocks[bi]["cleanup"] and not c.indirect
                       and F.resolve_callee(c, vadt, None) in steppers]
             if good and scalls:
@@ -840,7 +863,7 @@ def rule_view(env, shared):
                 src = ev.operand(ctx, t["args"][0])
                 if not isf(src, P):
                     good, why = False, "reads %s, not the view's pointer" % fmt(src)[:60]
-                fs = block_facts(ev, ctx, bi)
+                fs = block_facts(ev, ctx, bi) + extra_guard
                 if not any(f[0] == "ne" and len(f) == 3 and isf(f[1], L) and f[2] == ("int", 0) for f in fs):
                     good, why = False, "the read is not guarded by len != 0"
                 # the two field updates (ptr += 1, len -= 1), in either order relative to the read
@@ -875,16 +898,21 @@ def rule_view(env, shared):
                 if good:
                     # both updates happen on every path on which the read happens
                     for (wb, _, _) in (wp, wl):
-                        if wb != bi and not nb.dominates(wb, bi) and nb.paths_avoiding(bi, set(nb.exits()), {wb}):
+                        ex_ = set(nb.exits()) - {wb}   # (an update in the returning block itself is on the path)
+                        if wb != bi and not nb.dominates(wb, bi) and ex_ and nb.paths_avoiding(bi, ex_, {wb}):
                             good, why = False, "an update of the view can be skipped after the read"
-                        fsw = block_facts(ev, ctx, wb)
+                        fsw = block_facts(ev, ctx, wb) + extra_guard
                         if not any(f[0] == "ne" and len(f) == 3 and isf(f[1], L) and f[2] == ("int", 0) for f in fsw):
                             good, why = False, "the view is advanced without the guard len != 0"
             if good is not None:
-              out.append(Ob("OWN.view", k, "ok" if good else "viol", nb.file_line(),
+              out.append(Ob("OWN.view", k, "ok" if good else "viol", nb_orig.file_line(),
                           "reads *ptr under len != 0, then ptr += 1 and len -= 1 on every path" if good else
                           "next of the owning view %s is not a single guarded read followed by one step: %s — an element is "
                           "yielded twice, skipped, or read past the reserved interval" % (nm, why), True))
+        taker_def = None
+        if nb is not None and "nb_orig" in dir() and nb_orig is not None and nb is not nb_orig:
+            taker_def = nb.def_
+            nb = nb_orig
         # len / size_hint
         for (tr, mn) in (("std::iter::ExactSizeIterator", "len"), ("std::iter::Iterator", "size_hint")):
             d = F.method_impl(tr, mn, vadt)
@@ -896,8 +924,14 @@ def rule_view(env, shared):
             if mn == "len":
                 okk = isf(t, L)
             else:
-                okk = t[0] == "agg" and t[1] == "tuple" and len(t[2]) == 2 and isf(t[2][0], L) and \
-                    unref(t[2][1])[0] == "agg" and unref(t[2][1])[1].endswith("Option::Some") and isf(unref(t[2][1])[2][0], L)
+                # (`let n = ExactSizeIterator::len(self); (n, Some(n))`: through the view's own len(), judged above)
+                def lenself(x):
+                    x = unref(x)
+                    return isf(x, L) or (x[0] == "call" and x[1] == "len" and x[2] and
+                                         unref(x[2][0]) in (("param", 1), ("deref", ("param", 1))))
+            if mn != "len":
+                okk = t[0] == "agg" and t[1] == "tuple" and len(t[2]) == 2 and lenself(t[2][0]) and \
+                    unref(t[2][1])[0] == "agg" and unref(t[2][1])[1].endswith("Option::Some") and lenself(unref(t[2][1])[2][0])
             out.append(Ob("OWN.view", k, "ok" if okk else "viol", b.file_line(),
                           "%s reports the number of elements still owned" % mn if okk else
                           "%s of the view %s does not report its remaining length: %s" % (mn, nm, fmt(t)[:80]), True))
@@ -966,8 +1000,8 @@ def rule_view(env, shared):
         for b in F.non_test_bodies():
             if nb is not None and b.def_ == nb.def_:
                 continue
-            if b.def_ in okst:
-                continue  # a private stepping helper, judged above and used by next / drop only
+            if b.def_ in okst or (taker_def is not None and b.def_ == taker_def):
+                continue  # a private stepping / taking helper, judged above and used by next / drop only
             for bj, blk in enumerate(b.blocks):
                 for s2 in blk["stmts"]:
                     if s2["k"] == "assign" and s2["place"]["p"] and s2["place"]["p"][-1]["k"] == "field" \
